@@ -1,7 +1,7 @@
 #!/bin/bash
 # Like seedsweep.sh, but every seed runs on its own scratch worktree of /repo's HEAD (VERIF_REPO) with a
 # scratch output directory (VERIF_DIR), P seeds at a time (default 3): /repo and /verif/evidence are not
-# touched, so the sweep can run beside other work. Writes seeded/RESULTS.md.
+# touched, so the sweep can run beside other work. Writes seeded/RESULTS.md (OUT=<file>); SEEDS=<glob> restricts the seeds.
 cd /verif || exit 2
 P=${P:-3}
 tmp=$(mktemp -d /tmp/sweep-XXXX)
@@ -31,8 +31,8 @@ print(h if re.fullmatch(r'VerifH_[A-Za-z0-9_]+',h) else '')")
   echo "| $id | $prop | $r | $viol |" > $tmp/$id.row
 }
 export -f one
-ls -d seeded/*/ | xargs -P $P -I{} bash -c 'one {} '$tmp
-out=seeded/RESULTS.md
+ls -d seeded/${SEEDS:-*}/ | xargs -P $P -I{} bash -c 'one {} '$tmp
+out=${OUT:-seeded/RESULTS.md}
 echo "# Seeded changes vs. the registered quick checks (repo $(git -C /repo log --format=%h -1), verif $(git log --format=%h -1))" > $out
 echo >> $out
 echo "Each seed is applied to a scratch worktree of /repo's HEAD (tools/seedsweep_wt.sh) and run through the quick check of the property it breaks, restricted to the harness recorded as catching it." >> $out
